@@ -148,4 +148,73 @@ example :
 example : (run id [7] (directOrder .auto [⟨0, .control, 0, .payload [8]⟩])).1 = .next ∧ Mode.auto.directOnly = false := by
   decide
 
+/-! ## every state of the manifest -/
+
+/-- **C30.only_matching (all manifests).**  Whatever state the manifest is in — decodable or not, expired, without a
+recoverable key, without publisher identity — and whatever every endpoint answers: a file is written only when the manifest
+could be decoded *and* the bytes hash to its content hash. -/
+theorem only_matching_all (m : MState) (mode : Mode) (h : Bytes) (paths : List Path) (li : Nat) (loc : Resp) (b : Bytes)
+    (hw : (fetchM sha m mode h paths li loc).file = some b) : m.decodable = true ∧ sha b = h := by
+  unfold fetchM at hw
+  by_cases hd : m.decodable = true
+  · rw [if_pos hd] at hw
+    exact ⟨hd, only_matching sha mode h _ li loc b hw⟩
+  · rw [if_neg hd] at hw
+    exfalso
+    unfold fetchUndecodable at hw
+    by_cases hm : mode.directOnly = true
+    · rw [if_pos hm] at hw; cases hw
+    · rw [if_neg hm] at hw
+      cases loc <;> cases hw
+
+/-- **C30.undecodable_never_writes.**  Without a decodable manifest there is no content hash: nothing is written, whatever
+the local endpoint answers. -/
+theorem undecodable_never_writes (m : MState) (hm : m.decodable = false) (mode : Mode) (h : Bytes) (paths : List Path)
+    (li : Nat) (loc : Resp) : (fetchM sha m mode h paths li loc).file = none := by
+  cases hf : (fetchM sha m mode h paths li loc).file with
+  | none => rfl
+  | some b => have := (only_matching_all sha m mode h paths li loc b hf).1; rw [hm] at this; cases this
+
+/-- **C30.mismatch_fails (all manifests).**  In every manifest state a non-matching payload is indistinguishable from a
+failure (file, exit code, endpoints contacted). -/
+theorem mismatch_fails_all (m : MState) (mode : Mode) (h : Bytes) (paths : List Path) (li : Nat) (loc : Resp)
+    (hdec : m.decodable = true) :
+    fetchM sha m mode h (paths.map (neutralPath sha h)) li (neutral sha h loc) = fetchM sha m mode h paths li loc := by
+  unfold fetchM
+  rw [if_pos hdec, if_pos hdec]
+  have : (paths.map (neutralPath sha h)).map (view m) = (paths.map (view m)).map (neutralPath sha h) := by
+    rw [List.map_map, List.map_map]
+    apply List.map_congr_left
+    intro p _
+    exact view_neutral sha m h p
+  rw [this]
+  exact mismatch_fails sha mode h _ li loc
+
+/-- An expired manifest or one without publisher identity never dials a transport or relay hint; a manifest whose key
+shares cannot be recombined never yields a file over those paths. -/
+theorem transport_gated (m : MState) (k : Kind) (r : Resp) (hk : isTransportKind k = true) :
+    ((m.expired = true ∨ m.publisher = false) → effResp m k r = .down) ∧
+    (m.keyOk = false → ∀ b, effResp m k r ≠ .payload b) := by
+  unfold effResp
+  rw [hk]
+  constructor
+  · intro h
+    have : (m.publisher && !m.expired) = false := by
+      rcases h with h | h <;> simp [h]
+    simp [this]
+  · intro hko b
+    by_cases hp : (m.publisher && !m.expired) = true
+    · simp only [if_true, hp]
+      cases r <;> simp [hko]
+    · simp [hp]
+
+/-- expired manifest, honest control endpoint: the (verified) bytes are still written; the transport hint with the same
+bytes is not even contacted -/
+example :
+    fetchM id ⟨true, true, true, true⟩ .auto [1, 2, 3]
+      [⟨0, .transport, 0, .payload [1, 2, 3]⟩, ⟨1, .control, 5, .payload [1, 2, 3]⟩] 2 .down
+      = ⟨some [1, 2, 3], 0, [1]⟩ := by decide
+/-- undecodable manifest: the local endpoint's bytes are refused -/
+example : fetchM id ⟨false, false, true, true⟩ .auto [1, 2, 3] [] 0 (.payload [1, 2, 3]) = ⟨none, 1, [0]⟩ := by decide
+
 end EphVerif.C30
